@@ -51,9 +51,11 @@ def _evs_of_text(txt, want):
     return out
 
 
-def dump_evs(module, cfg, want=("step",), timeout=600, coverage=True, workers=WORKERS):
+def dump_evs(module, cfg, want=("step",), timeout=600, coverage=False, workers=WORKERS):
     """exhaustive TLC run of tla/<module>.tla with tla/<cfg>.cfg and '-dump'; returns (TlcResult, [ev dict of every
-    reachable state whose ev.op is in `want`])"""
+    reachable state whose ev.op is in `want`]).  '-coverage' is off by default: TLC's cost-model construction takes
+    minutes on these arithmetic-heavy modules; vacuity is checked on the dumped events instead (every action that
+    completes an operation leaves its name in ev.op)."""
     meta = tlc._mk_tmp()
     dump = os.path.join(meta, "dump")
     try:
@@ -85,6 +87,9 @@ def simulate_evs(module, cfg, num, depth, seed, want=("step",), timeout=600):
         res = tlc.run(os.path.join(TLA, module + ".tla"), os.path.join(TLA, cfg + ".cfg"), workers=1,
                       simulate="file=%s,num=%d" % (pref, num), depth=depth, seed=seed, timeout=timeout,
                       keep_meta=meta, java_opts=["-XX:ParallelGCThreads=2"])
+        m = re.search(r'The number of states generated: (\d+)', res.out)
+        if m and not res.generated:
+            res.generated = res.distinct = int(m.group(1))      # simulation mode prints a different summary line
         behs = []
         for f in sorted(glob.glob(pref + "_*")):
             with open(f) as fh:
@@ -102,16 +107,24 @@ def simulate_evs(module, cfg, num, depth, seed, want=("step",), timeout=600):
     return res, behs
 
 
-def negative_tlc(ctx, module, cfg, name, timeout=300):
-    """a deliberately wrong variant of the specification must violate one of its invariants (TLC-level control)"""
-    res = tlc.run(os.path.join(TLA, module + ".tla"), os.path.join(TLA, cfg + ".cfg"), workers=2, timeout=timeout,
-                  java_opts=["-XX:ParallelGCThreads=2"])
+def negative_run(module, cfg, timeout=300):
+    """TLC on a deliberately wrong variant of the specification (no dump); to be judged by negative_record"""
+    return tlc.run(os.path.join(TLA, module + ".tla"), os.path.join(TLA, cfg + ".cfg"), workers=2, timeout=timeout,
+                   java_opts=["-XX:ParallelGCThreads=2"])
+
+
+def negative_record(ctx, res, name):
+    """the wrong variant must violate one of the specification's invariants (TLC-level negative control)"""
     ctx.cov["tlc_runs"].append({"name": name, "generated": res.generated, "distinct": res.distinct, "depth": res.depth,
                                 "wall_s": round(res.wall, 2), "queue_left": res.queue, "violation": res.violation})
     if res.error:
         raise Machinery("TLC run %s failed: %s\n%s" % (name, res.error, res.out[-2000:]))
     ctx.control(name, res.violation is not None)
     return res
+
+
+def negative_tlc(ctx, module, cfg, name, timeout=300):
+    return negative_record(ctx, negative_run(module, cfg, timeout), name)
 
 
 # ---- rationals ---------------------------------------------------------------------------------------------------
@@ -147,8 +160,11 @@ def parse_obs(line):
 
 
 def harness():
-    return build.build_harness("law_drv", [os.path.join(VERIF, "harness", "law_drv.cc")],
-                               extra=["-I" + os.path.join(build.REPO, "plugin", "actuator")])
+    return build.build_harness("law_drv", [os.path.join(VERIF, "harness", "law_drv.cc"),
+                                           os.path.join(build.REPO, "plugin", "elasticity", "cable.cc")],
+                               extra=["-I" + os.path.join(build.REPO, "plugin", "actuator"),
+                                      "-I" + os.path.join(build.REPO, "plugin", "elasticity"),
+                                      "-I" + os.path.join(VERIF, "harness")])
 
 
 def run_lines(exe, lines, timeout=900):
